@@ -180,17 +180,21 @@ impl<'a> InputGen<'a> {
 
     /// Inject one mistake somewhere in the tree (any depth). Returns the kind injected, if any.
     pub fn inject(&mut self, rng: &mut Rng, items: &mut Vec<Item>, r: &'a Recv, depth: usize) -> Option<&'static str> {
-        self.inject_ctx(rng, items, Ctx::Recv(r), depth)
+        self.inject_ctx(rng, items, Ctx::Recv(r), depth, &[])
     }
 
-    fn inject_ctx(&mut self, rng: &mut Rng, items: &mut Vec<Item>, ctx: Ctx<'a>, depth: usize) -> Option<&'static str> {
+    /// `outer`: names valid in the enclosing receivers (an unknown name close to one of *those* is
+    /// what tells a scoped suggestion from an unscoped one)
+    fn inject_ctx(&mut self, rng: &mut Rng, items: &mut Vec<Item>, ctx: Ctx<'a>, depth: usize, outer: &[String]) -> Option<&'static str> {
         // descend into a nested list with some probability
         let nested: Vec<usize> = items.iter().enumerate().filter(|(_, i)| matches!(&i.kind, Kind::List(_))).map(|(k, _)| k).collect();
         if !nested.is_empty() && depth < 4 && rng.chance(2, 5) {
             let k = *rng.pick(&nested);
             let child = self.child_ctx(&ctx, &items[k]);
             if let (Kind::List(inner), Some(cc)) = (&mut items[k].kind, child) {
-                return self.inject_ctx(rng, inner, cc, depth + 1);
+                let mut names: Vec<String> = outer.to_vec();
+                names.extend(ctx_names(&ctx));
+                return self.inject_ctx(rng, inner, cc, depth + 1, &names);
             }
         }
         if let Ctx::Map = ctx {
@@ -243,7 +247,13 @@ impl<'a> InputGen<'a> {
         match kind {
             0 => {
                 // unknown name: a near miss of a valid name, or something unrelated
-                let base = if !names.is_empty() && rng.chance(3, 4) { rng.pick(&names).clone() } else { "zzz".to_string() };
+                let base = if !outer.is_empty() && rng.chance(1, 3) {
+                    rng.pick(outer).clone()
+                } else if !names.is_empty() && rng.chance(3, 4) {
+                    rng.pick(&names).clone()
+                } else {
+                    "zzz".to_string()
+                };
                 let name = near_miss(rng, &base);
                 if !addressable(&name) {
                     return None;
@@ -398,6 +408,18 @@ impl<'a> InputGen<'a> {
                 }
             },
         }
+    }
+}
+
+fn ctx_names(ctx: &Ctx<'_>) -> Vec<String> {
+    match ctx {
+        Ctx::Recv(r) => match &r.shape {
+            Shape::Struct(fs) => fs.iter().map(|f| field_name(r, f)).collect(),
+            Shape::Enum(vs) => vs.iter().map(|v| variant_name(r, v)).collect(),
+            _ => vec![],
+        },
+        Ctx::Fields(r, fs) => fs.iter().map(|f| field_name(r, f)).collect(),
+        Ctx::Map => vec![],
     }
 }
 
